@@ -55,7 +55,9 @@ class Skeleton:
                 continue      # evaluated in place at its call sites, not a node of the skeleton
             ret = b.get("ret", "")
             kind = None
-            if ret.startswith("core::result::Result<(&"):
+            if b["def"] in ctx.curried_roles(lib):
+                kind = "factory"        # uncurried form of a parser factory: presented in curried form by pathsum
+            elif ret.startswith("core::result::Result<(&"):
                 kind = "direct"
             elif ret.startswith("impl ") and ("Fn(" in ret or "FnMut(" in ret or "FnOnce(" in ret) and "Result<(&" in ret:
                 kind = "factory"
@@ -67,7 +69,7 @@ class Skeleton:
                 continue
             if kind == "factory":
                 cl = ctx.returned_closure(hir.async_full(b["value"]))
-                inp_pat = cl["params"][0]
+                inp_pat = cl["params"][0] if cl is not None else b["params"][-1]
             else:
                 inp_pat = b["params"][-1]
             inp = ("param", inp_pat.get("name")) if inp_pat.get("k") == "Bind" else None
